@@ -246,7 +246,7 @@ def fail_stop(ctx):
             if prev is None:
                 continue
             (pn, _), lab = prev
-            if n is cfg.exit or (lab == 'back' and n is m.loop_node) or (n in prim_nodes and n is not node):
+            if n is cfg.exit or (n is m.loop_node and m.loop_node in pn.loop_stack) or (n in prim_nodes and n is not node):
                 bad = (n, stt)
                 break
         raised = any(isinstance(n.ast, ast.Raise) and n.kind == 'stmt' and
@@ -354,8 +354,10 @@ def _loop_shape(unit, var_names):
         if not (isinstance(t, ast.Compare) and is_name(t.left)):
             continue
         iv = t.left.id
-        reads = [s for s in ast.walk(lp) if isinstance(s, ast.Subscript) and is_name(s.value)
-                 and s.value.id in var_names and iv in {x.id for x in ast.walk(s.slice) if isinstance(x, ast.Name)}]
+        reads = [s for s in ast.walk(lp) if isinstance(s, ast.Subscript)
+                 and (is_name(s.value) and s.value.id in var_names
+                      or isinstance(s.value, ast.Attribute) and s.value.attr == '__ops__')
+                 and iv in {x.id for x in ast.walk(s.slice) if isinstance(x, ast.Name)}]
         if not reads:
             continue
         inits = [n for n in unit.own_nodes() if isinstance(n, ast.Assign) and any(is_name(x, iv) for x in n.targets)
